@@ -205,6 +205,30 @@ def run(rep, tier):
                 missing = [(b, i, ev) for b, i, ev in enq if not precedes_on_all_paths(
                     fn, lambda e: e.get("k") == "call" and callee_short(e) == "select_active_pu", (b, i),
                     edge_pred=numa_edge if sched == "shared_priority_queue_scheduler" else None)]
+                # ... and the PU mutex select_active_pu returned with is still held at the enqueue: the suspender does its
+                # running -> pre_sleep CAS under the same mutex, and that exclusion is what makes the worker's final
+                # "my queues are empty" test valid (the worker itself never takes the mutex)
+                sel_calls = [(b_, i_, e_) for b_, i_, e_ in fn.all_events() if e_.get("k") == "call" and callee_short(e_) == "select_active_pu" and e_.get("args")]
+                lockvars = set(P(e_["args"][0]) for _, _, e_ in sel_calls)
+                dead_at = {}
+
+                def tr_lock(st, e_, pos_):
+                    if e_.get("k") == "call" and callee_short(e_) == "select_active_pu":
+                        return False
+                    if (e_.get("k") == "dtor" and e_.get("var") in lockvars) or \
+                            (e_.get("k") == "call" and callee_short(e_) in ("unlock", "release") and e_.get("recv") is not None and P(e_["recv"]) in lockvars):
+                        return True
+                    return st
+                bef_lock, _, _ = forward(fn, False, tr_lock, None, lambda a, b: a or b, eh=False)
+                released = [(b_, i_, e_) for b_, i_, e_ in enq if bef_lock.get((b_, i_)) and
+                            precedes_on_all_paths(fn, lambda e: e.get("k") == "call" and callee_short(e) == "select_active_pu", (b_, i_),
+                                                  edge_pred=numa_edge if sched == "shared_priority_queue_scheduler" else None)]
+                if released:
+                    b_, i_, e_ = released[0]
+                    rep.bad("C19.R4", fn, loc_of(e_), "enqueue-after-pu-unlock", "%s enqueues (%s) after the PU mutex taken by select_active_pu was released: the suspender can move "
+                            "the PU to pre_sleep in between, the worker finds its queue empty and sleeps, and the task is pushed behind it" % (member, T(e_)[:80]))
+                elif sel_calls:
+                    rep.ok("C19.R4", fn, "the PU mutex taken by select_active_pu is held at all %d enqueue sites" % len(enq))
                 if missing:
                     b, i, ev = missing[0]
                     rep.bad("C19.R4", fn, loc_of(ev), "enqueue-without-select", "%s reaches %s without select_active_pu: work can be queued on a suspended worker"
